@@ -148,6 +148,7 @@ func newE2(params json.RawMessage) *e2Machine {
 	for i := 0; i < p.Clients; i++ {
 		coll := p.Colls[i%len(p.Colls)]
 		h := m.sys.NewClient(coll, fmt.Sprintf("c%d", i), st)
+		h.SeeOnSubscribe = m.oracles["entry"]
 		c := &e2client{h: h, idx: i, coll: coll, dts: map[string]*e2dt{}, cuid: h.C.VerifCUID(), typ: p.Type}
 		if len(p.Types) > 0 {
 			c.typ = p.Types[i%len(p.Types)]
@@ -1463,6 +1464,16 @@ func (m *e2Machine) checkEntries(c *e2client, preds []entryPred, dumpBefore stri
 			sc, serr := w.ServerCopy(len(ops))
 			if serr != nil {
 				return viol("C13:log-not-replayable", "key %s: %v", p.key, serr)
+			}
+			// ... and that is what the application sees when it is told that it is subscribed
+			c.h.Lock()
+			seen := append([]string{}, c.h.Seen[p.key]...)
+			c.h.Unlock()
+			if len(seen) == 1 {
+				b, _ := json.Marshal(sc.typed().ToJSON())
+				if seen[0] != string(b) {
+					return viol("C13:state-shown-when-told-subscribed-differs-from-log-position:"+c.typ, "client %d key %s subscribed at log position %d; in the state-change handler (-> SUBSCRIBED) the datatype read %s, the log up to that position gives %s", c.idx, p.key, pack.CheckPoint.Sseq, seen[0], b)
+				}
 			}
 			if a, b := d.rep.View(), sc.View(); a != b {
 				return viol("C13:first-state-differs-from-log-position:"+c.typ, "client %d key %s subscribed at log position %d:\n client: %s\n log[1..%d]: %s", c.idx, p.key, pack.CheckPoint.Sseq, a, pack.CheckPoint.Sseq, b)
